@@ -16,7 +16,7 @@ CFG = """CONSTANTS
  Emit = TRUE
 INIT Init
 NEXT Next
-INVARIANTS OriginAdmissible OriginIsAncestor SelfBlame
+INVARIANTS OriginAdmissible OriginIsAncestor SelfBlame FPAgreesWithOrigin FPAdmissible
 CHECK_DEADLOCK FALSE
 """
 TCFG = """CONSTANTS
@@ -31,10 +31,12 @@ CHECK_DEADLOCK FALSE
 def run(ctx):
     import vlib
     rnd = random.Random(ctx.seed)
-    ndet, nany = (300, 300) if ctx.thorough else (30, 30)
+    ndet, nany = (300, 300) if ctx.thorough else (20, 20)
+    nfp = 300 if ctx.thorough else 25
     dk = [[rnd.randrange(1 << 20) for _ in range(5)] for _ in range(ndet)]
     ak = [[rnd.randrange(1 << 20) for _ in range(5)] for _ in range(nany)]
-    items = ["DetHist(<<%s>>)" % ", ".join(map(str, k)) for k in dk] + ["AnyHist(<<%s>>)" % ", ".join(map(str, k)) for k in ak]
+    fk = [[rnd.randrange(1 << 20) for _ in range(4)] for _ in range(nfp)]
+    items = ["FPHist(<<%s>>)" % ", ".join(map(str, k)) for k in fk] + ["DetHist(<<%s>>)" % ", ".join(map(str, k)) for k in dk] + ["AnyHist(<<%s>>)" % ", ".join(map(str, k)) for k in ak]
     mod = "---- MODULE MCBlameGen ----\nEXTENDS MCBlame\nMCHists == MCFixedH \\o <<%s>>\n====\n" % ", ".join(items)
     r = ctx.tlc("MCBlameGen", cfg="Blame_gen.cfg", cfg_text=CFG, files={"MCBlameGen.tla": mod}, workers=4, timeout=1800)
     hist = os.path.join(r.dir, "blame_hist.ndjson")
@@ -59,7 +61,7 @@ def run(ctx):
                     {"history": b["h"], "at": b["at"], "gogit": b["out"], "par": h["par"], "ver": h["ver"], "tm": h["tm"], "determinate": h["det"]})
     ctx.cov["traces_validated_against_impl"] = cnt[0]["n"]
     ctx.cov["inadmissible"] = len(bad)
-    ctx.cov["bounds"] = {"fixed_histories": 4, "determinate_keys": ndet, "arbitrary_keys": nany, "commits": 5, "max_parents": 2,
+    ctx.cov["bounds"] = {"fixed_histories": 5, "determinate_keys": ndet, "first_parent_determinate_keys": nfp, "arbitrary_keys": nany, "commits": 5, "max_parents": 2,
                          "symbols": {"determinate": 10, "arbitrary": 3}, "max_lines": 10}
     ctx.cov["exhaustive"] = False
     ctx.cov["rule"] = ("one TLC state per (history, blamed commit); histories decoded in TLA+ from seeded keys; distinct = distinct histories; "
